@@ -123,6 +123,31 @@ def run(prog, rep, only=None, floor=40):
                         okv = any(o[0] == 'param' and o[1] in pnames for o in org)
                         rule.check(okv, '%s|%s|value-from-parameter' % (key, k), rep.where(c), wf.label(), 'the value stored under "%s" derives from the parameter' % k,
                                    'the value stored under "%s" (%s) does not derive from the setter\'s parameter' % (k, varg.src(40)))
+            # write-total (C13j): a value setter stores (or removes) on every normally returning path - no value is "not worth storing"
+            MUT = ('setAttr', 'setData', 'removeAttr', 'removeData', 'removeGroup', 'createData', 'createLink', 'setExtent', 'write', 'openGroup')
+            for wf in roles['writer']:
+                if any('none_t' in p['type'] for p in wf.params):
+                    continue
+                cfg = wf.cfg
+                if cfg is None:
+                    continue
+                mut = [c for kind, op, k, c in accesses(wf) if op in MUT]
+                mut += [c for c in wf.calls() if (c.callee.get('cls') or '').startswith('nix::hdf5::') and c.callee.get('name') in MUT]
+                mut += [c for c in wf.calls() if (c.callee.get('cls') == cls and not (c.callee.get('sig') or '').endswith(' const') and c.callee.get('kind') not in ('ctor', 'conv'))]
+                mblocks = set()
+                for c in mut:
+                    x = c
+                    while x is not None and cfg.pos.get(x.id) is None:
+                        x = x.p
+                    if x is not None:
+                        mblocks.add(cfg.pos[x.id][0])
+                dead = set(b.id for b in cfg.blocks.values() if b.noreturn or any(wf.nodes.get(e) is not None and wf.nodes[e].k == 'throw' for e in b.elems))
+                if not mblocks:
+                    continue
+                skip = cfg.reaches(cfg.entry, cfg.exit, avoid=dead | mblocks)
+                rule.check(not skip, '%s%s|write-total' % (key, '(%s)' % ','.join(p['type'] for p in wf.params)), rep.where(wf), wf.label(),
+                           'every normally returning path stores or removes the field',
+                           'a path through the setter returns without storing or removing anything: for some argument (empty, default, equal) the old stored value survives and is read back')
             if roles.get('clearer') and ck:
                 bad = [k for k in ck if k not in wk] + [k for k in wk if k not in ck and k[0] != 'group' and not any(k2[1] == k[1] for k2 in ck)]
                 rule.check(not bad, key + '|write-clear', rep.where(roles['clearer'][0]), key, 'the none_t overload removes %s' % sorted(ck),
